@@ -244,6 +244,21 @@ def body(ch, tag, flag):
     a.properties.headers["poison"] = 1
     ok = ok and "poison" not in c.properties.headers and frame.unmarshal(d1)[2].properties.headers == {"k": flag}
     ok = ok and header.ContentHeader().properties.priority is None
+    # nested containers of separate decodes are never the same object, and changing one in place does not
+    # change what a later decode of the same bytes returns
+    nested = hx.table([("x", [1, hx.table([("y", tag)])]), ("b", bytearray([1, 2])), ("t", hx.table([("z", [flag])]))])
+    w1 = hx.fix(frame.marshal(commands.Queue.Declare(0, "q", False, flag, False, False, False, nested), ch))
+    w2 = hx.fix(frame.marshal(header.ContentHeader(0, 1, commands.Basic.Properties(headers=nested)), ch))
+    for w, get in ((w1, lambda f: f.arguments), (w2, lambda f: f.properties.headers)):
+        t1, t2 = get(frame.unmarshal(w)[2]), get(frame.unmarshal(w)[2])
+        ok = ok and t1 is not t2 and t1["x"] is not t2["x"] and t1["x"][1] is not t2["x"][1]
+        ok = ok and t1["b"] is not t2["b"] and t1["t"] is not t2["t"] and t1["t"]["z"] is not t2["t"]["z"]
+        t1["x"].append("poison")
+        t1["x"][1]["y"] = "poison"
+        t1["b"].append(9)
+        t1["t"]["z"][0] = "poison"
+        t3 = get(frame.unmarshal(w)[2])
+        ok = ok and len(t3["x"]) == 2 and t3["x"][1]["y"] == tag and len(t3["b"]) == 2 and t3["t"]["z"][0] == flag
     ok = ok and state_ok(s0, lambda: None)
     return ok
 '''
